@@ -38,3 +38,15 @@ chk("C04", "crash/hang monitor in serial child processes (recover, loop-tick bud
 chk("C16", "lock-step model-based monitor over method sequences with math/big.Int as the executable model + representation invariants through the VerifRepr hook",
     "Exploration: pools of 6 BigInt slots mirrored by big.Int, sequences of 30-200 calls over 47 method groups with all aliasing patterns, values dense at the 64/128-bit boundaries; all slots compared after every call; no negative zero, inline words equal |value|, no shared heap big.Int; MathBigInt results stable across later mutation, stack growth and GC.",
     "Trusted: math/big.Int is the specification (its own stale-neg-flag zero from GCD is normalised in the mirror).", "DESIGN.md 4/C16")
+chk("C13", "round-trip monitor: every encoding is parsed back and compared field-wise; Decompose/Compose into clean and dirty destinations; float64 round trip with an independent big.Rat nearest-float oracle for exactness and shortest-ness",
+    "Exploration: all forms/signs, coefficients of 1..2000 digits incl. the 32/53/63/64/128-bit and 10^19 boundaries, exponents over the full +/-100000 range with dense sampling at the formatting switch-over points; 16 encodings per value; float64 over random bit patterns, subnormals, powers of two and decimal neighbours.",
+    "Trusted: big.Rat.Float64 exactly rounded; special values in canonical shape.", "DESIGN.md 4/C13")
+chk("C14", "language-membership monitor (independent DFA recogniser of the GDA numeric-string grammar vs all five parsers) + independent to-scientific-string writer + fmt padding model calibrated at run time against fmt's float64 output",
+    "Exploration: grammar sentences, single-byte mutations, fragment concatenations and random bytes classified must-accept / must-reject / unconstrained; accepted strings must yield the recogniser's value; String() compared with the independent writer over the full exponent range; Format over verb x flag-subset x width combinations.",
+    "Trusted: internal/gda (recogniser and writer transcribed from the specification).", "DESIGN.md 4/C14")
+chk("C15", "order-axiom monitor on pairs and pools with an exact big-integer comparison as reference",
+    "Exploration: pairs engineered for each path of Cmp (equal exponents, adjusted magnitudes, equal digit-count+exponent sums, cohorts, zeros, infinities, large exponent gaps, NaNs); Cmp/Context.Cmp against the exact order, CmpTotal against the documented ranking plus antisymmetry, reflexivity, zero-iff-identical and transitivity on pools of 7 values.",
+    "Trusted: math/big.", "DESIGN.md 4/C15")
+chk("C17", "online reference-model monitor: big.Int for Int64/constructors/Modf, big.Rat.Float64 (exact nearest) for Float64",
+    "Exploration: Int64 around the int64 boundaries times powers of ten with trailing-zero and fractional variants; constructors into dirty destinations; Float64 at midpoints of adjacent floats +/- a far digit, subnormal range and overflow edge; Modf with dirty and nil outputs over all branches.",
+    "Trusted: math/big.", "DESIGN.md 4/C17")
